@@ -4,7 +4,8 @@
 //!  (b) every response carries exactly one Date (a valid HTTP-date) and exactly one Server header -- the application's own
 //!      when it supplied one;
 //!  (c) a later Content-Type replaces an earlier one whatever the letter case of either, so at most one is sent;
-//!  (d) a supplied Content-Length only sets the declared body length (it is not echoed as a second header).
+//!  (d) a supplied Content-Length only sets the declared body length (it is not echoed as a second header);
+//!  (e) all of this also for a header list handed to the constructor `Response::new`.
 use verif_replay::*;
 
 fn exchange(build: impl FnOnce() -> tiny_http::Response<std::io::Cursor<Vec<u8>>>) -> String {
@@ -65,5 +66,14 @@ fn main() {
     let head = exchange(|| tiny_http::Response::from_string("hello").with_header(hdr("content-length", "5")));
     let cl = values(&head, "Content-Length");
     if cl != ["5"] { bad.push(format!("application supplied Content-Length 5 for a 5-byte body: sent {:?}", cl)); }
+    // (e) the same rules for a header list handed to the constructor Response::new
+    let head = exchange(|| tiny_http::Response::new(tiny_http::StatusCode(200),
+        vec![hdr("Content-Type", "a/one"), hdr("X-First", "1"), hdr("content-type", "b/two"), hdr("Transfer-Encoding", "injected"), hdr("X-Second", "2"), hdr("Content-Length", "5")],
+        std::io::Cursor::new(b"hello".to_vec()), None, None));
+    let (ct, cl) = (values(&head, "Content-Type"), values(&head, "Content-Length"));
+    let order: Vec<&str> = head.lines().filter(|l| l.starts_with("X-")).collect();
+    if ct != ["b/two"] || cl != ["5"] || order != ["X-First: 1", "X-Second: 2"] || head.to_ascii_lowercase().contains("injected") {
+        bad.push(format!("header list given to Response::new: Content-Type {:?}, Content-Length {:?}, ordinary {:?}, reserved on the wire: {}", ct, cl, order, head.to_ascii_lowercase().contains("injected")));
+    }
     verdict(bad.is_empty(), &format!("header policy: {}", if bad.is_empty() { "as the property says".into() } else { bad.join(" | ") }));
 }
